@@ -64,6 +64,40 @@ var rawPeerScenarios = []string{"value-for-error-only", "dup-responses", "bad-re
 
 func subRawPeer(args []string) {
 	sc := args[0]
+	if sc == "nil-hooks-precancelled" {
+		// Link called WITHOUT per-link hooks and with a context that is already cancelled: returns, crashes nothing
+		for _, api := range apis() {
+			r := rpc.NewRegistry[rpRemote, json.RawMessage](rpLocal{}, nil)
+			ctx, cancel := context.WithCancel(context.Background())
+			cancel()
+			q := NewQueue()
+			done := make(chan error, 1)
+			go func() {
+				if api == "message" {
+					done <- r.LinkMessage(ctx,
+						func(b json.RawMessage) error { return nil }, func(b json.RawMessage) error { return nil },
+						func() (json.RawMessage, error) { b, e := q.Get(); return b, e }, func() (json.RawMessage, error) { b, e := q.Get(); return b, e },
+						func(v any) (json.RawMessage, error) { b, err := json.Marshal(v); return b, err },
+						func(data json.RawMessage, v any) error { return json.Unmarshal([]byte(data), v) }, nil)
+				} else {
+					done <- r.LinkStream(ctx,
+						func(m rpc.Message[json.RawMessage]) error { return nil },
+						func(m *rpc.Message[json.RawMessage]) error { _, e := q.Get(); return e },
+						func(v any) (json.RawMessage, error) { b, err := json.Marshal(v); return b, err },
+						func(data json.RawMessage, v any) error { return json.Unmarshal([]byte(data), v) }, nil)
+				}
+			}()
+			select {
+			case <-done:
+			case <-time.After(watchdog):
+				fmt.Println("BAD Link with a cancelled context and no per-link hooks did not return (" + api + ")")
+			}
+			q.Close(errors.New("closed"))
+			time.Sleep(20 * time.Millisecond)
+		}
+		fmt.Println("DONE")
+		return
+	}
 	reg := rpc.NewRegistry[rpRemote, json.RawMessage](rpLocal{}, nil)
 	in, inRes, out, outReq := NewQueue(), NewQueue(), NewQueue(), NewQueue()
 	var failWrite int32
@@ -249,9 +283,10 @@ func subRawPeer(args []string) {
 func runRawPeer(rep *Report, prop string) {
 	rel := map[string][]string{
 		"C05": {"dup-responses", "bad-closure-id-spawned"},
-		"C15": {"dup-responses"},
+		"C15": {"dup-responses", "nil-hooks-precancelled"},
+		"C14": {"nil-hooks-precancelled"},
 		"C09": {"bad-response-value", "value-for-error-only"},
-		"C06": {"bad-response-value", "bad-closure-id", "bad-closure-id-spawned"},
+		"C06": {"nil-hooks-precancelled", "bad-response-value", "bad-closure-id", "bad-closure-id-spawned"},
 		"C16": {"bad-closure-id", "error-response-write-fails"},
 		"C17": {"bad-closure-id", "value-for-error-only"},
 		"C03": {"error-response-write-fails"},
